@@ -1,12 +1,15 @@
 """C11 -- separate-process mode contains every way a test can die.
-Scenario:    <all_sep 0|1> <ntests> test*
+Scenario:    [:ri] <all_sep 0|1> <ntests> ([:ign] test)*
+  :ri  = registry-wide run-ignored switch (-ri);   :ign = the test is an IGNORE_TEST (shell derived from IgnoredUtestShell): not run
+         at all without :ri (no child, no failure, counted as ignored), exactly like the unmarked test with it
   test ::= :plain <fail 0|1>                       ordinary test (own process only when all_sep = 1)
          | :scr <fork_ok 0|1> <n> wout*n           fork/waitpid replaced by stubs replaying the outcomes (then a clean exit)
                wout ::= :ei (EINTR) | :er <errno> (other error) | :x <k> exited | :k <sig> <core> killed | :s <sig> stopped | :c continued
          | :real <n> act*n  x5  <n> inj*n          a real child; actions in plugin pre action, setup, body, teardown, plugin post action
                act ::= :r <sig> raise | :e <k> _exit | :f failing check        inj ::= :ei | :er | :re (faults in front of the real waitpid)
-Observation: per test ":t <started> <nf> cat*nf <waitpid calls> <SIGCONT seen> <lost>", then ":end <failures> <isFailure> <run> <late>".
-All numbers hexadecimal."""
+Observation: per test ":t <started> <nf> cat*nf <waitpid calls> <SIGCONT seen> <lost>", then ":end <failures> <isFailure> <run> <ignored> <late>".
+With all_sep = 0 scripted and real tests carry their own separate-process flag; with all_sep = 1 no test carries one (every child
+comes from the registry-wide flag alone).  All numbers hexadecimal."""
 import os, re
 import vlib
 ID = "C11"
@@ -36,13 +39,20 @@ RULE = ("(a) scripted: every outcome stream of length <= 5 (quick) / <= 6 (thoro
         "raise(sig) for every signal 1..31 at each of the five points (plugin pre action, setup, body, teardown, plugin post action), "
         "_exit(k) (sampled in quick, all 256 in thorough), failing checks in every phase combination (setup failure skipping a deadly body), "
         "repeated stops, EINTR/error injected in front of the real waitpid at every position relative to stop and exit; (c) sequences of 2-6 "
-        "tests mixing all kinds, with earlier failures (initial count > 0) and a passing last test, with and without the registry-wide flag. "
+        "tests mixing all kinds, with earlier failures (initial count > 0) and a passing last test, with and without the registry-wide flag; "
+        "(d) IGNORE_TESTs with and without the run-ignored switch: an ignored real child dying by every terminating signal, by _exit(k), "
+        "by a failing check or stopping, at each of the five points, in first, middle and last position, with the registry-wide flag "
+        "(its only source of a child) or its own flag, next to non-ignored tests of every kind, ignored scripted streams (fork failure, "
+        "EINTR overrun), runs made of ignored tests only, and the same scenarios without the switch (nothing may happen); a quarter of "
+        "the random sequences carry markers and the switch. "
         "non-trivial = some test with an event other than a clean exit, or an injected/scripted wait fault")
 ASSUMPTIONS = ["Linux/glibc wait-status layout and the default signal actions of signal(7); signals 1..31 only for real children",
                "the harness keeps its process group from being orphaned, so SIGTSTP/SIGTTIN/SIGTTOU stop like SIGSTOP",
                "after an EINTR overrun or a waitpid error the runner abandons the child by design (upstream test expects the give-up); "
                "the harness reaps such children itself",
-               "scripted status words are 16-bit (the kernel never sets higher bits); plugin actions do not throw"]
+               "scripted status words are 16-bit (the kernel never sets higher bits); plugin actions do not throw",
+               "one runAllTests per registry (the first repetition: the shells get their separate-process and run-ignored flags from that "
+               "very loop); with the registry-wide flag no shell carries a flag of its own"]
 
 
 # ------------------------------------------------------------------------------------------------ formatting
@@ -55,8 +65,12 @@ def real(pre=(), setup=(), body=(), td=(), post=(), inj=()):
     return ":real %s %s %s %s %s %s" % (f(pre), f(setup), f(body), f(td), f(post), f(inj))
 
 
-def scen(all_sep, tests):
-    return "%x %x %s" % (all_sep, len(tests), " ".join(tests))
+def scen(all_sep, tests, ri=0):
+    return "%s%x %x %s" % (":ri " if ri else "", all_sep, len(tests), " ".join(tests))
+
+
+def ign(t):
+    return ":ign " + t
 
 
 def rnd_out(rng, kind):
@@ -207,6 +221,7 @@ def generate(tier, rng):
         out.append(scen(0, [":plain 1", real(post=[":f"] * k, body=[":r 13"]), real()]))
     out.append(scen(0, [real(inj=[":er"]), real()]))
     out.append(scen(0, [real(body=[":r 13"], inj=[":re", ":er"]), real()]))
+    out.extend(gen_ignored(quick, rng, tol))
     # (c) sequences
     n = 2500 if quick else 40000
     for _ in range(n):
@@ -214,21 +229,111 @@ def generate(tier, rng):
         ts = [rnd_test(rng, tol) for _ in range(m)]
         if rng.random() < 0.6:
             ts.append(rng.choice(PASSING))
-        out.append(scen(1 if rng.random() < 0.3 else 0, ts))
+        ri = 0
+        if rng.random() < 0.25:         # markers and the switch
+            ri = 1 if rng.random() < 0.6 else 0
+            ts = [ign(t) if rng.random() < 0.4 else t for t in ts]
+        out.append(scen(1 if rng.random() < (0.5 if ri else 0.3) else 0, ts, ri))
+    return out
+
+
+def gen_ignored(quick, rng, tol):
+    """(d) IGNORE_TESTs and the run-ignored switch.  The first block is the clause itself: an ignored test that is run (switch on) in
+    separate-process mode dies in every way at every point and position; the parent must record one failure and go on."""
+    out = []
+    deadly = []       # (point, action)
+    for n, sig in enumerate(TERM):
+        pts = POINTS if (not quick or sig in (6, 9, 11)) else [["setup", "body", "td"][n % 3], POINTS[(n * 2 + 1) % 5]]
+        for p in pts:
+            deadly.append((p, ":r %x" % sig))
+    ks = [0, 1, 2, 255] + ([] if quick else [3, 127, 128, 254]) + [rng.randrange(256) for _ in range(2 if quick else 12)]
+    for n, k in enumerate(ks):
+        for p in (["setup", "body", "td"] if quick and k > 1 else POINTS):
+            deadly.append((p, ":e %x" % k))
+    others = [":plain 0", ":plain 1", real(), real(body=[":f"]), scr(1, [":k 9 0"]), real(td=[":r f"])]
+    for n, (p, a) in enumerate(deadly):
+        t = ign(real(**place(p, [a])))
+        last = rng.choice(PASSING[:2])
+        # first position, registry-wide flag + switch
+        out.append(scen(1, [t, last], ri=1))
+        # later position, after a non-ignored test (passing or failing: initial count > 0), another test behind it
+        out.append(scen(1, [others[n % len(others)], t, last], ri=1))
+        if not quick or n % 3 == 0:
+            out.append(scen(1, [t, last], ri=0))                                   # switch off: never run, even with a deadly program
+            out.append(scen(0, [t, last], ri=1))                                   # own flag instead of the registry-wide one
+            out.append(scen(1, [real(**place(p, [a])), ign(real(**place(p, [a]))), ign(":plain 0"), t], ri=1))   # last position, two ignored deaths
+        if not quick or n % 7 == 0:
+            out.append(scen(0, [others[(n + 1) % len(others)], t, last], ri=0))
+    # stops, failing checks, ignored signals in an ignored child that is run
+    for p in POINTS:
+        for a in ([":r 13"], [":f"], [":r 11"], [":r 13", ":r 14", ":e 0"], [":f", ":f"]) + (() if quick else ([":r 15"], [":r 16"], [":r 13", ":f"])):
+            for ri in (1, 0):
+                out.append(scen(1, [ign(real(**place(p, a))), ":plain 0"], ri=ri))
+                out.append(scen(0, [":plain 1", ign(real(**place(p, a))), ign(real()), real()], ri=ri))
+    # plain and scripted ignored tests; runs of ignored tests only (not a failure: run + ignored > 0)
+    for ri in (0, 1):
+        for a in (0, 1):
+            for f in (0, 1):
+                out.append(scen(a, [ign(":plain %x" % f)], ri=ri))
+                out.append(scen(a, [ign(":plain %x" % f), ":plain 0"], ri=ri))
+                out.append(scen(a, [":plain %x" % (1 - f), ign(":plain %x" % f), ign(":plain 0")], ri=ri))
+            out.append(scen(a, [ign(scr(0, [])), ":plain 0"], ri=ri))
+            out.append(scen(a, [ign(scr(1, [":k b 1"])), ign(scr(1, [":s 13", ":x 0"])), ":plain 0"], ri=ri))
+            for k in (tol - 1, tol, tol + 1):
+                out.append(scen(a, [ign(scr(1, [":ei"] * k + [":x 0"])), real()], ri=ri))
+                out.append(scen(a, [ign(real(body=[":r 13"], inj=[":ei"] * k)), real()], ri=ri))
+            out.append(scen(a, [ign(real(inj=[":er"])), real()], ri=ri))
+            out.append(scen(a, [ign(real(body=[":r b"])), ign(real(setup=[":e 3"])), ign(":plain 1")], ri=ri))
+    # sequences where only the ignored tests die
+    for _ in range(60 if quick else 1500):
+        m = rng.randrange(1, 5)
+        ts = []
+        for _ in range(m):
+            c = rng.random()
+            if c < 0.5:
+                p = rng.choice(POINTS)
+                a = rng.choice([":r %x" % rng.choice(TERM), ":e %x" % rng.choice([0, 1, rng.randrange(256)]), ":r %x" % rng.choice(TERM)])
+                ts.append(ign(real(**place(p, [a]))))
+            elif c < 0.7:
+                ts.append(rng.choice(PASSING))
+            elif c < 0.8:
+                ts.append(ign(rng.choice(PASSING)))
+            else:
+                ts.append(rnd_test(rng, tol))
+        out.append(scen(1 if rng.random() < 0.7 else 0, ts, ri=1 if rng.random() < 0.8 else 0))
     return out
 
 
 # ------------------------------------------------------------------------------------------------ parsing (classification, shrinking)
-def parse(s):
+class T(list):
+    """a parsed test: ["plain", f] | ["scr", ok, outs] | ["real", pre, setup, body, td, post, inj], with the IGNORE_TEST marker"""
+    ign = False
+
+
+def mk(l, ign=False):
+    t = T(l)
+    t.ign = ign
+    return t
+
+
+def parse_full(s):
     t = s.split()
+    ri = 0
+    if t[0] == ":ri":
+        ri = 1
+        t = t[1:]
     all_sep = int(t[0], 16)
     n = int(t[1], 16)
     i = 2
     tests = []
     for _ in range(n):
+        ig = False
+        if t[i] == ":ign":
+            ig = True
+            i += 1
         k = t[i]
         if k == ":plain":
-            tests.append(["plain", int(t[i + 1], 16)])
+            tests.append(mk(["plain", int(t[i + 1], 16)], ig))
             i += 2
         elif k == ":scr":
             ok = int(t[i + 1], 16)
@@ -239,7 +344,7 @@ def parse(s):
                 w = {":ei": 1, ":er": 2, ":c": 1, ":x": 2, ":s": 2, ":k": 3}[t[i]]
                 outs.append(" ".join(t[i:i + w]))
                 i += w
-            tests.append(["scr", ok, outs])
+            tests.append(mk(["scr", ok, outs], ig))
         else:
             i += 1
             ph = []
@@ -256,24 +361,31 @@ def parse(s):
             i += 1
             ph.append(t[i:i + m])
             i += m
-            tests.append(["real"] + ph)
-    return all_sep, tests
+            tests.append(mk(["real"] + ph, ig))
+    return ri, all_sep, tests
 
 
-def fmt(all_sep, tests):
+def fmt(all_sep, tests, ri=0):
     o = []
     for t in tests:
         if t[0] == "plain":
-            o.append(":plain %x" % t[1])
+            x = ":plain %x" % t[1]
         elif t[0] == "scr":
-            o.append(scr(t[1], t[2]))
+            x = scr(t[1], t[2])
         else:
-            o.append(real(*t[1:7]))
-    return scen(all_sep, o)
+            x = real(*t[1:7])
+        o.append(ign(x) if getattr(t, "ign", False) else x)
+    return scen(all_sep, o, ri)
+
+
+def skipped(ri, t):
+    return t.ign and not ri
 
 
 def nontrivial(s):
-    _, tests = parse(s)
+    ri, _, tests = parse_full(s)
+    if any(t.ign for t in tests):
+        return True
     for t in tests:
         if t[0] == "scr" and (not t[1] or any(o != ":x 0" for o in t[2])):
             return True
@@ -282,11 +394,43 @@ def nontrivial(s):
     return False
 
 
+def deadly_point(t):
+    """the phase in which the child of a real test is ended by a terminating signal or _exit (None: it runs to its end)"""
+    setup_failed = False
+    for idx, name in enumerate(POINTS):
+        if name == "body" and setup_failed:
+            continue
+        for a in t[1 + idx]:
+            k = a.split()
+            if k[0] == ":r":
+                if int(k[1], 16) in TERM:
+                    return name
+            elif k[0] == ":e":
+                return name
+            elif name not in ("pre", "post"):      # a failing check leaves its phase
+                setup_failed = setup_failed or name == "setup"
+                break
+    return None
+
+
 def classify(s):
-    all_sep, tests = parse(s)
-    lab = ["tests:%d" % min(len(tests), 7), "all_sep:%d" % all_sep]
+    ri, all_sep, tests = parse_full(s)
+    lab = ["tests:%d" % min(len(tests), 7), "all_sep:%d" % all_sep, "run_ignored:%d" % ri]
     tol = source_bound()
-    for t in tests:
+    if tests and all(skipped(ri, t) for t in tests):
+        lab.append("nothing-run")
+    for n, t in enumerate(tests):
+        if t.ign:
+            how = "not-run" if not ri else "run-sep-by-registry" if all_sep else "run-own-flag" if t[0] != "plain" else "run-in-process"
+            lab.append("ignored:" + how)
+            if ri and t[0] == "real":
+                d = deadly_point(t)
+                if d:
+                    lab.append("ignored-run-dies@%s:%s" % (d, "first" if n == 0 else "last" if n == len(tests) - 1 else "middle"))
+                    if all_sep:
+                        lab.append("ignored-run-dies:registry-flag")
+                    if any(not u.ign for u in tests):
+                        lab.append("ignored-run-dies:next-to-normal-tests")
         if t[0] == "scr":
             lab.append("scripted")
             if not t[1]:
@@ -385,10 +529,21 @@ def py_expect(outs, tol):
 
 def signature(s, o):
     if o.startswith("!"):
-        return "crash " + o[:50]
+        # the runner's own process died or hung: say how, and what kind of scenario it was (the observation cannot tell which test)
+        try:
+            ri, all_sep, tests = parse_full(s)
+            how = "hung" if o.startswith("!HANG") else "killed by a signal" if "signal" in o else "exited" if "exit" in o else o[:40]
+            ctx = []
+            if any(t.ign and ri for t in tests):
+                ctx.append("an IGNORE_TEST is run (run-ignored)")
+            if all_sep:
+                ctx.append("registry-wide separate-process flag")
+            return "crash: runner process %s%s" % (how, " [" + ", ".join(ctx) + "]" if ctx else "")
+        except Exception:
+            return "crash " + o[:50]
     try:
         tol = source_bound()
-        all_sep, tests = parse(s)
+        ri, all_sep, tests = parse_full(s)
         toks = o.split()
         i = 0
         late = toks[-1] == "1"
@@ -402,6 +557,13 @@ def signature(s, o):
                 j += 2 if toks[j] == ":k" else 1
             calls, lost = int(toks[j], 16), toks[j + 2]
             i = j + 3
+            if skipped(ri, t):
+                shape = "ignored %s (no run-ignored)" % t[0]
+                if started != "0":
+                    return "late " * late + shape + " was started"
+                if nf or calls:
+                    return "late " * late + shape + " failures %d waits %d want none" % (nf, calls)
+                continue
             if t[0] == "plain" and not all_sep:
                 want, seen = (t[1], 0, True), ["in-process"]
             elif t[0] == "scr" and not t[1]:
@@ -411,8 +573,8 @@ def signature(s, o):
                 f, c, reaped, seen = py_expect(outs, tol)
                 want = (f, c, reaped or t[0] == "scr")
             ne = seen.count(":ei")
-            shape = "%s[%s%s]%s" % (t[0], "ei*%s " % ("<=tol" if ne <= tol else ">tol") if ne else "", " ".join(x for x in seen if x != ":ei"),
-                                   " after earlier failures" if earlier else "")
+            shape = "%s%s[%s%s]%s" % ("ignored(run) " if t.ign else "", t[0], "ei*%s " % ("<=tol" if ne <= tol else ">tol") if ne else "",
+                                     " ".join(x for x in seen if x != ":ei"), " after earlier failures" if earlier else "")
             if started != "1":
                 return "late " * late + shape + " not started"
             if nf != want[0]:
@@ -422,21 +584,27 @@ def signature(s, o):
             if want[2] and lost == "1":
                 return "late " * late + shape + " child left behind"
             earlier = earlier or nf > 0
-        return "late " * late + "totals / overall verdict / run count"
+        return "late " * late + "totals / overall verdict / run and ignored counts"
     except Exception as e:
         return "malformed observation"
 
 
 def shrink(s):
-    all_sep, tests = parse(s)
-    if all_sep:
-        yield fmt(0, tests)
+    ri, all_sep, tests = parse_full(s)
     if len(tests) > 1:
         for i in range(len(tests)):
-            yield fmt(all_sep, tests[:i] + tests[i + 1:])
+            yield fmt(all_sep, tests[:i] + tests[i + 1:], ri)
+    if all_sep:
+        yield fmt(0, tests, ri)
+    if ri:
+        yield fmt(all_sep, tests, 0)
+        if any(t.ign for t in tests):      # the switch and the markers together: the same tests as ordinary ones
+            yield fmt(all_sep, [mk(t) for t in tests], 0)
     for i, t in enumerate(tests):
         def rep(nt):
-            return fmt(all_sep, tests[:i] + [nt] + tests[i + 1:])
+            return fmt(all_sep, tests[:i] + [mk(nt, t.ign)] + tests[i + 1:], ri)
+        if t.ign:
+            yield fmt(all_sep, tests[:i] + [mk(t)] + tests[i + 1:], ri)
         if t[0] == "scr":
             outs = t[2]
             if len(outs) > 8:
@@ -454,12 +622,17 @@ def shrink(s):
 
 LEVEL_TEXT = ("Machine-checked (Coq) theorems over an executable model of the separate-process runner (status-word decoding exactly as the glibc "
               "macros, SetTestFailureByStatusCode, the fork/waitpid loop with its EINTR retry bound and SIGCONT for stopped children, the child's "
-              "verdict _exit(initial < final), runOneTest's choice and runAllTests' loop): the decoding partitions all 65536 status words and "
+              "verdict _exit(initial < final), runOneTest's choice, IgnoredUtestShell::runOneTest with the registry-wide run-ignored switch, and "
+              "runAllTests' loop with the run/ignored counters and isFailure): the decoding partitions all 65536 status words and "
               "inverts the kernel's packing, the wait loop ends within a bounded prefix of every outcome stream, failures are exactly one per "
               "stop / abnormal end / failing fork or wait (none iff forked, no stop, exit 0), interrupted waits within the bound are transparent, "
-              "every later test is still run and the run is reported failed. Tied to the code by a differential run of the extracted model "
+              "every later test is still run and the run is reported failed; an IGNORE_TEST run under the run-ignored switch is recorded exactly "
+              "as the same test not marked ignored (same wait loop, same containment), without the switch it has no child, no wait and no "
+              "failure whatever its program and is counted as ignored. Tied to the code by a differential run of the extracted model "
               "against the real library: scripted fork/waitpid outcome streams through the PlatformSpecific seams and real children dying by "
-              "every signal 1..31, exit status, failing check or stop at every crash point; the extracted model-free spec judges the implementation.")
+              "every signal 1..31, exit status, failing check or stop at every crash point, as ordinary tests and as IGNORE_TESTs with and "
+              "without -ri, their child coming from the registry-wide flag alone or from their own; the extracted model-free spec judges the "
+              "implementation, and a death of the runner's own process on a scenario is a violation.")
 LEVEL_NOTE = ("Partial: kernel delivery of signals, zombie reaping and SIGCONT are observed on real children, not modelled beyond the default-action "
               "table and the status-word layout (both trusted, stated in C11_Model.v). Retry bound, comparison, WUNTRACED and the six message "
               "texts are re-read from UtestPlatform.cpp on every run. After an EINTR overrun or a waitpid error the runner abandons the child by "
